@@ -38,7 +38,7 @@ CLAIMS = {
     'C16': ('Lean 4 theorems on a hand-written model of gs1_128.py (info∘encode and validate fixed-point for every registry/validator environment and mappings of any size, under explicit well-formedness and six defect-excluding hypotheses; kernel-evaluated facts about the regenerated identifier table; negations of the full statements by kernel-evaluated witnesses), differential run, failing-input search',
             'Proof on the hand-written model Spec.GS1 (tie = tools/corr/gs1.py on every check, all 213 identifiers). The full statements are false of the code as it is (seven known defects, each with a '
             'proved witness and listed as a known finding); the proved theorems are the _partial versions whose hypotheses exclude exactly those cases.', '§4 C16, §8', ''),
-    'C17': ('Lean 4 theorems on the regenerated model (single substitution / adjacent transposition of an accepted number is rejected) for the formats listed in obligations/C17.json (ISBN/EAN/ISSN/ISMN/IMEI/ISNI/IBAN/LEI/ISO 11649/GRid and 30 national numbers) via refinement to the generic algorithms and the abstract fold-detection theorem; full statements that are false of the code have a kernel-checked negation and a _partial theorem; differential run; exhaustive neighbourhood search',
+    'C17': ('Lean 4 theorems on the regenerated model (single substitution / adjacent transposition of an accepted number is rejected) for the formats listed in obligations/C17.json (ISBN/EAN/ISSN/ISMN/IMEI/ISNI/IBAN/LEI/ISO 11649/GRid and 32 national numbers) via refinement to the generic algorithms and the abstract fold-detection theorem; full statements that are false of the code have a kernel-checked negation and a _partial theorem; differential run; exhaustive neighbourhood search',
             'Proof for the formats listed in obligations/C17.json (every accepted number, every position, every same-class replacement); three ISBN-13/ISMN statements carry an extra ASCII-digit '
             'hypothesis (named _partial). Other listed formats: search only.', '§4 C17, §8', ''),
     'C06': ('Lean 4 theorems (abstract fold detection theorem + instances, unbounded length, all even Luhn bases) on a hand-written model tied to the code by a differential run; failing-input search',
